@@ -131,6 +131,10 @@ class Outcome:
                         "%s:%s" % (os.path.basename(fr.filename)[:-3], fr.name)
                     )
             self.where = chain[-1] if chain else "?"
+            if self.exc_type == "CaseTimeout":
+                # the frame the watchdog happened to interrupt is not part of
+                # what was observed (it varies from run to run)
+                self.where = "watchdog"
 
     @property
     def ok(self):
